@@ -91,7 +91,7 @@ def main():
             if ti in (2, 3):
                 # corpus tables: the same sequence id and column names in two storage orders, asked the same clauses
                 ncols, cols, int_only, types, nrows = 3, [["c0", "c1", "c2"], ["c2", "c0", "c1"]][ti - 2], True, ["i", "i", "i"], 0
-                rows = [tuple({"c0": j, "c1": 4 - j, "c2": 3 * j - 2}[c] for c in cols) for j in range(5)]
+                rows = [tuple({"c0": j, "c1": 4 - j, "c2": 10 - 3 * j}[c] for c in cols) for j in range(5)]
             if ti == 0:
                 # corpus table: two String columns whose padded sizes are permutations of one another from record to record
                 ncols, cols, int_only, types, nrows = 3, ["c0", "c1", "c2"], False, ["s", "i", "s"], 0
@@ -109,6 +109,7 @@ def main():
                         # padded sizes that are a permutation of another record's
                         row.append(rng.choice(["u", "vw", "x", "abc", "A b", "a+b", "a b", "abcde", "wxyzvu", "", "wxyzvu12"]))
                 rows.append(tuple(row))
+            nrows = len(rows)            # (the corpus tables bring their rows with them)
             # ---- three backends
             def build(backend):
                 ds = DatasetType("d")
